@@ -191,9 +191,10 @@ struct World {
     signal_t signal_of(int i) { return sigs[i] ? *sigs[i] : signal_t(*cols[i]); }
     void copy_handle() {
         int src = nth_live((pick + created) % live_handles());
-        int dst = created++;
+        int dst = 0;
+        while (dst < NH && (sigs[dst] || cols[dst])) dst++;
         if (dst >= NH) throw std::runtime_error("too many handles");
-        if ((dst + pick) % 2) cols[dst].emplace(collector_of(src));
+        if ((created++ + pick) % 2) cols[dst].emplace(collector_of(src));
         else sigs[dst].emplace(signal_of(src));
     }
     void drop_handle(int salt) {
